@@ -157,7 +157,10 @@ def laguerre_der(n, alpha, x):
     # see wiki
     # d^k/dx^k L_n^alpha = (-1)^k L_(n-k)^(alpha+k)
     k = 1
-    return laguerre(n-k, alpha+k, x)
+    if n < k:
+        return np.zeros_like(x)
+
+    return (-1)**k * laguerre(n-k, alpha+k, x)
 
 
 def laguerre_der_seq(ns, alpha, x):
@@ -181,5 +184,10 @@ def laguerre_der_seq(ns, alpha, x):
 
     """
     k = 1
-    ns = [n-k for n in ns]
-    return laguerre_seq(ns, alpha+k, x)
+    ns = list(ns)
+    out = np.zeros((len(ns), *x.shape), dtype=x.dtype)
+    low = sum(1 for n in ns if n < k)  # d^k/dx^k L_n = 0 for n < k; ns is ascending
+    if low < len(ns):
+        out[low:] = (-1)**k * laguerre_seq([n-k for n in ns[low:]], alpha+k, x)
+
+    return out
